@@ -120,3 +120,122 @@ def _replay(model, rec):
     detail = (f"textx generate ... {' '.join(toks)} -> exit {code}, generator received {seen!r}; "
               f"the property demands {{{want_key!r}: {want_val!r}}}")
     return (not ok), detail
+
+
+# --------------------------------------------------------------------------
+# inner generate(...): validation of declared / mandatory generator arguments
+# and forwarding of ALL custom arguments to the generator
+# --------------------------------------------------------------------------
+from txvc.contracts import Loop, Schema  # noqa: E402
+
+Schema("GeneratorDesc", fields={"custom_args": "list[obj:GeneratorParam]|none", "generator": "any",
+                                "language": "any", "target": "any"})
+Schema("GeneratorParam", fields={"name": "str", "mandatory": "bool"})
+
+GEN = "evn('generator_description', 0).result"
+GARGS = f"as_list({GEN}.custom_args)"
+
+Unit(
+    "cli.generate.inner-generate",
+    target="textx/cli/generate.py::generate.generate.generate",
+    props=["C30"],
+    params={"language": "any", "target": "any", "any_permitted": "any", "metamodel": "any",
+            "model": "any", "custom_args": "dict"},
+    captured={"output_path": "any", "overwrite": "any", "debug": "any"},
+    calls={
+        "generator_description": Ext("generator_description", returns="obj:GeneratorDesc", pure=True,
+                                     raises=["TextXRegistrationError"]),
+        "generator.generator": Ext("generator", protect=["dict(custom_args)"],
+                                   note="the registered generator callable (does not modify the custom_args dict)"),
+    },
+    modifies=["*"],
+    locals={"generator_args": "list[obj:GeneratorParam]|none"},
+    loops={
+        "for:generator_args": Loop(
+            pure=True,
+            inv=["forall(lambda j: implies(0 <= j and j < _i, implies(as_list(generator_args)[j].mandatory,"
+                 " as_list(generator_args)[j].name in given_args)))"]),
+        "for:given_args": Loop(
+            pure=True,
+            inv=["forall(lambda j: implies(0 <= j and j < _i, key_at(given_args, j) in generator_arg_names))"]),
+    },
+    requires=[
+        # ghost key order of the custom_args dict covers exactly its keys
+        "forall_val(lambda k: implies(k in custom_args, exists_in(0, nkeys(custom_args),"
+        " lambda j: key_at(custom_args, j) == k)))",
+    ],
+    ensures=[
+        ("generator-called-once-with-every-custom-argument",
+         "n_calls('generator') == 1 and evn('generator', 0).star == custom_args"
+         " and forall_val(lambda k: (k in custom_args) == old(k in custom_args)"
+         " and implies(k in custom_args, before(evn('generator', 0), custom_args[k]) == old(custom_args[k])))"),
+        ("generator-positional-arguments",
+         "evn('generator', 0).args[0] == metamodel and evn('generator', 0).args[1] == model"
+         " and evn('generator', 0).args[2] == output_path and evn('generator', 0).args[3] == overwrite"
+         " and evn('generator', 0).args[4] == debug"),
+        ("mandatory-arguments-present",
+         f"before(evn('generator', 0), implies({GEN}.custom_args is not None,"
+         f" forall(lambda j: implies(0 <= j and j < len({GARGS}),"
+         f" implies({GARGS}[j].mandatory, {GARGS}[j].name in custom_args)))))"),
+        ("given-arguments-declared",
+         f"before(evn('generator', 0), implies(nkeys(custom_args) > 0 and {GEN}.custom_args is not None"
+         f" and len({GARGS}) > 0, forall(lambda i: implies(0 <= i and i < nkeys(custom_args),"
+         f" exists_in(0, len({GARGS}), lambda j: {GARGS}[j].name == key_at(custom_args, i))))))"),
+    ],
+    canary="n_calls('generator') == 0",
+)
+
+
+# --------------------------------------------------------------------------
+# the per-model-file step: every custom argument reaches generate(...)
+# --------------------------------------------------------------------------
+INNER = "evn('call:cli.generate.inner-generate', 0)"
+
+Unit(
+    "cli.generate.per-file-body",
+    target="textx/cli/generate.py::generate.generate",
+    region="body:for:model_files_without_args",
+    props=["C30"],
+    params={"model_file": "str", "no_explicit_language": "bool", "language": "any", "metamodel": "any",
+            "custom_args": "dict", "target": "any", "output_path": "any", "overwrite": "any", "debug": "any"},
+    calls={
+        "logger.info": Ext("logger.info", pure=True, raises=None, returns="none"),
+        "language_for_file": Ext("language_for_file", pure=True, raises=["TextXRegistrationError"], returns="obj"),
+        "metamodel_for_file": Ext("metamodel_for_file", raises=["TextXError"], returns="obj",
+                                  protect=["dict(custom_args)"]),
+        "metamodel.model_from_file": Ext("model_from_file", raises=["TextXError"],
+                                         protect=["dict(custom_args)"],
+                                         note="loading the model does not modify the custom_args dict"),
+    },
+    requires=[
+        "forall_val(lambda k: implies(k in custom_args, exists_in(0, nkeys(custom_args),"
+        " lambda j: key_at(custom_args, j) == k)))",
+    ],
+    ensures=[
+        ("generate-gets-the-whole-custom-args-dict",
+         f"n_calls('call:cli.generate.inner-generate') == 1 and {INNER}.args['custom_args'] == custom_args"
+         f" and forall_val(lambda k: before({INNER}, k in custom_args) == old(k in custom_args)"
+         f" and implies(old(k in custom_args), before({INNER}, custom_args[k]) == old(custom_args[k])))"),
+        ("model-loaded-from-the-file", "evn('model_from_file', 0).args[0] == model_file"),
+    ],
+    canary="n_calls('model_from_file') == 0",
+)
+
+
+@replay_for("cli.generate.per-file-body")
+def _replay_per_file(model, rec):
+    """End-to-end: one ordinary custom argument plus one custom argument for every
+    model parameter the meta-model declares (the situation in which the per-file
+    step treats arguments differently); the generator must receive all of them."""
+    from textx import metamodel_from_str
+
+    names = ["foo_bar"] + list(metamodel_from_str("Model: 'x';").model_param_defs)
+    toks = []
+    want = {}
+    for i, nm in enumerate(names):
+        toks += ["--" + nm.replace("_", "-"), f"v{i}"]
+        want[nm] = f"v{i}"
+    code, seen, out = run_generate_cli(toks)
+    ok = code == 0 and seen == want
+    return (not ok), (f"textx generate ... {' '.join(toks)} -> exit {code}; generator received {seen!r}, "
+                      f"the property demands {want!r}")
